@@ -10,8 +10,11 @@ TS = {"self": "TokenStream"}
 ST = {"stream": "TokenStream"}
 ERR = ["JSONPathError"]
 
-# ---- token stream: assumed (deque / iterator based: outside the subset) ----
-contract("tokens:TokenStream.next_token", trusted=True, mutates=TS, requires=["ts_inv(self)"],
+# ---- token stream: __next__ (iterator-consuming) and peek (needs a call-history fact, DESIGN 0.1) assumed; the rest verified ----
+contract("tokens:TokenStream.__next__", trusted=True, mutates=TS, requires=["ts_inv(self)"],
+    ensures=["ts_inv(self)", "is_tok(result)", "result == self0.current", "self.current == ts_next(self0)"], raises=[], props=["C05"],
+    note="the one primitive that consumes the underlying iterator / pops the push-back store: assumed")
+contract("tokens:TokenStream.next_token", mutates=TS, requires=["ts_inv(self)"],
     ensures=["ts_inv(self)", "is_tok(result)", "result == self0.current", "self.current == ts_next(self0)"], raises=[], props=["C05"],
     note="returns the current token and advances to the one `peek` showed (past the end: EOF forever)")
 contract("tokens:TokenStream.peek", trusted=True, mutates=TS, requires=["ts_inv(self)"],
@@ -102,9 +105,9 @@ contract("parse:Parser.parse_selectors", mutates=ST, requires=P_REQ,
 
 Q_YIELDS = ["all(isinstance(s, JSONPathSegment) and s.env == self.env and wf_segment(s, self.env) for s in out)"]
 
-contract("tokens:TokenStream.__init__", trusted=True, requires=["is_arr(token_iter)"], ensures=["ts_inv(self)"], raises=[], props=["C05"],
-    note="iterator / deque based: assumed to leave a current token; that lexer-made tokens satisfy is_tok (string value, TokenType, integer offset, "
-         "and the text guarantees of the lexer's regular expressions) is part of this assumption")
+contract("tokens:TokenStream.__init__", requires=["is_arr(token_iter)"], ensures=["ts_inv(self)"], raises=[], unfold=["tok_text_ok", "str_body", "dec_dangling"], props=["C05"],
+    note="verified against the assumed contract of __next__; that lexer-made tokens satisfy is_tok (string value, TokenType, integer offset, "
+         "and the text guarantees of the lexer's regular expressions) is part of THAT assumption")
 
 contract("parse:Parser.parse", mutates=ST, requires=P_REQ,
     yields=["all(isinstance(s, JSONPathSegment) and s.env == self.env and wf_segment(s, self.env) for s in out)"], ensures=[], raises=ERR,
